@@ -12,10 +12,12 @@
 #include <etl/cmath.hpp>
 #include <etl/limits.hpp>
 
+#include <algorithm>
 #include <array>
 #include <cmath>
 #include <limits>
 #include <string>
+#include <type_traits>
 
 using mc::cat;
 
@@ -146,6 +148,128 @@ void sweep(mc::Reporter& r)
     r.count("distinct_nontrivial", nontrivial);
 }
 
+// ---- large finite arguments (added with fix 70e8de1: the own implementation computed sqrt(x*x + y*y), which
+// overflows - and is then not a constant expression - for arguments above sqrt(max()) although the header promises
+// "without undue overflow" and the result is representable).  Enumerated: every pair and triple over
+// G = {0, 1, -3, 2*sqrt(max), -max/8, max/4, max/2}; judged where the exact result is at most max (computed by
+// scaling in long double, for long double with hypotl).  Whether the table is a constant expression at all is
+// decided by a requires-probe, so a regression is a reported case and not a build failure.
+constexpr std::size_t NG = 7;
+template <typename T>
+constexpr auto larges() -> std::array<T, NG>
+{
+    using L = std::numeric_limits<T>;
+    // 2^(max_exponent/2 + 1) = 2*sqrt(max) up to rounding, built by repeated doubling (no libm in constant evaluation)
+    T big = T(1);
+    for (int i = 0; i < L::max_exponent / 2 + 1; ++i) { big *= T(2); }
+    return {T(0), T(1), T(-3), big, -L::max() / T(8), L::max() / T(4), L::max() / T(2)};
+}
+template <typename T>
+constexpr auto ltable2() -> std::array<T, NG * NG>
+{
+    std::array<T, NG * NG> r{};
+    auto const s = larges<T>();
+    for (std::size_t i = 0; i < NG; ++i) {
+        for (std::size_t j = 0; j < NG; ++j) { r[i * NG + j] = etl::hypot(s[i], s[j]); }
+    }
+    return r;
+}
+template <typename T>
+constexpr auto ltable3() -> std::array<T, NG * NG * NG>
+{
+    std::array<T, NG * NG * NG> r{};
+    auto const s = larges<T>();
+    for (std::size_t i = 0; i < NG; ++i) {
+        for (std::size_t j = 0; j < NG; ++j) {
+            for (std::size_t k = 0; k < NG; ++k) { r[(i * NG + j) * NG + k] = etl::hypot(s[i], s[j], s[k]); }
+        }
+    }
+    return r;
+}
+template <auto F>
+concept constant_expression = requires { typename std::bool_constant<(F(), true)>; };
+
+// exact-ish reference by scaling with the largest magnitude; returns false if the result is not representable in T
+template <typename T>
+bool large_reference(std::initializer_list<T> args, long double& want)
+{
+    long double hi = 0;
+    for (T a : args) { hi = std::max(hi, std::fabs(static_cast<long double>(a))); }
+    if (hi == 0) {
+        want = 0;
+        return true;
+    }
+    long double sum = 0;
+    for (T a : args) {
+        long double const q = static_cast<long double>(a) / hi;
+        sum += q * q;
+    }
+    long double const root = std::sqrt(sum); // 1 <= root <= sqrt(3)
+    if (hi > static_cast<long double>(std::numeric_limits<T>::max()) / root) { return false; }
+    want = hi * root;
+    return true;
+}
+template <typename T>
+char const* judge_large(T got, std::initializer_list<T> args)
+{
+    long double want = 0;
+    if (!large_reference<T>(args, want)) { return nullptr; } // the result itself overflows: any answer C allows
+    if (!(got == got) || std::isinf(got)) { return "undue_overflow"; }
+    long double const tol  = 4 * static_cast<long double>(std::numeric_limits<T>::epsilon()) * want;
+    long double const g    = static_cast<long double>(got);
+    long double const diff = g > want ? g - want : want - g;
+    return diff > tol ? "large_value" : nullptr;
+}
+
+template <typename T>
+void sweep_large(mc::Reporter& r)
+{
+    auto const s        = larges<T>();
+    std::uint64_t evals = 0, nontrivial = 0;
+    constexpr bool cx2  = constant_expression<[] { return ltable2<T>(); }>;
+    constexpr bool cx3  = constant_expression<[] { return ltable3<T>(); }>;
+    if (!cx2) { r.violation("C16", "etl::hypot (constant evaluation)", "large_arguments:not_a_constant_expression", cat("etl::hypot(", tn<T>(), ",", tn<T>(), ") over G x G"), "the table of results for large finite arguments is not a constant expression (overflow inside the evaluation)"); }
+    if (!cx3) { r.violation("C16", "etl::hypot(x,y,z) (constant evaluation)", "large_arguments:not_a_constant_expression", cat("etl::hypot(", tn<T>(), " x3) over G^3"), "the table of results for large finite arguments is not a constant expression (overflow inside the evaluation)"); }
+    for (std::size_t i = 0; i < NG; ++i) {
+        for (std::size_t j = 0; j < NG; ++j) {
+            volatile T vx = s[i];
+            volatile T vy = s[j];
+            T const x = vx, y = vy;
+            T const rt   = etl::hypot(x, y);
+            auto const k = cat("etl::hypot(", tn<T>(), ",", tn<T>(), ") x=", show(x), " y=", show(y));
+            ++evals;
+            ++nontrivial;
+            if (auto rule = judge_large<T>(rt, {x, y})) { r.violation("C16", "etl::hypot", cat("large_arguments:", rule), k, cat("run-time result ", show(rt))); }
+            if constexpr (cx2) {
+                static constexpr auto ct2 = ltable2<T>();
+                ++evals;
+                if (auto rule = judge_large<T>(ct2[i * NG + j], {x, y})) {
+                    r.violation("C16", "etl::hypot (constant evaluation)", cat("large_arguments:", rule), k, cat("constant-evaluated result ", show(ct2[i * NG + j])));
+                }
+            }
+            r.outcome(mc::hash_str(show(rt)));
+            for (std::size_t m = 0; m < NG; ++m) {
+                volatile T vz = s[m];
+                T const z     = vz;
+                T const rt3   = etl::hypot(x, y, z);
+                auto const k3 = cat("etl::hypot(", tn<T>(), " x3) x=", show(x), " y=", show(y), " z=", show(z));
+                ++evals;
+                if (auto rule = judge_large<T>(rt3, {x, y, z})) { r.violation("C16", "etl::hypot(x,y,z)", cat("large_arguments:", rule), k3, cat("run-time result ", show(rt3))); }
+                if constexpr (cx3) {
+                    static constexpr auto ct3 = ltable3<T>();
+                    ++evals;
+                    if (auto rule = judge_large<T>(ct3[(i * NG + j) * NG + m], {x, y, z})) {
+                        r.violation("C16", "etl::hypot(x,y,z) (constant evaluation)", cat("large_arguments:", rule), k3, cat("constant-evaluated result ", show(ct3[(i * NG + j) * NG + m])));
+                    }
+                }
+            }
+        }
+    }
+    r.sample(cat("etl::hypot(", tn<T>(), ") over G x G and G^3, G = {0,1,-3,2*sqrt(max),-max/8,max/4,max/2}: constexpr table (probed) and run time"));
+    r.count("evaluations", evals);
+    r.count("distinct_nontrivial", nontrivial);
+}
+
 } // namespace
 
 int main(int argc, char** argv)
@@ -154,5 +278,8 @@ int main(int argc, char** argv)
     m.job("hypot-special/float", {"quick", "thorough"}, [](mc::Reporter& r) { sweep<float>(r); });
     m.job("hypot-special/double", {"quick", "thorough"}, [](mc::Reporter& r) { sweep<double>(r); });
     m.job("hypot-special/long double", {"quick", "thorough"}, [](mc::Reporter& r) { sweep<long double>(r); });
+    m.job("hypot-large/float", {"quick", "thorough"}, [](mc::Reporter& r) { sweep_large<float>(r); });
+    m.job("hypot-large/double", {"quick", "thorough"}, [](mc::Reporter& r) { sweep_large<double>(r); });
+    m.job("hypot-large/long double", {"quick", "thorough"}, [](mc::Reporter& r) { sweep_large<long double>(r); });
     return m.run();
 }
